@@ -322,6 +322,25 @@ func programs() []program {
 		})
 		cancel()
 	})
+	// a subscriber without backpressure that has fallen behind merges what it has not delivered yet: what it
+	// merges INTO is its own - the change it was handed is the one the other subscribers are reading
+	add("collection(lagging lossy subscriber)/Pull(backpressure)+consume||Update x2 of one item", func() {
+		c := resource.NewCollection(resource.WithInitialRecord("a", tm(12)))
+		ctx, cancel := context.WithCancel(bg)
+		c.Pull(ctx, resource.WithUpdatesOnly(true)) // opened first, nobody receives: its second change meets the first
+		par(func() {
+			for e := range c.Pull(ctx, resource.WithBackpressure(true), resource.WithUpdatesOnly(true)) {
+				_ = e.ChangeType
+				touch(e.NewValue)
+				touch(e.OldValue)
+			}
+		}, func() {
+			c.Update("a", tm(10))
+			c.Update("a", tm(11))
+			cancel()
+		})
+		cancel()
+	})
 	add("collection/Pull+consume||Update||Upsert", func() {
 		c := resource.NewCollection(resource.WithInitialRecord("a", tm(12)))
 		ctx, cancel := context.WithCancel(bg)
@@ -941,6 +960,9 @@ func main() {
 		q, t := 1, 2
 		if strings.HasPrefix(p.name, "collection(no duplicates)/") {
 			q, t = 0, 1 // three callers on two full subscription pipelines: 70 000 executions at one preemption
+		}
+		if strings.HasPrefix(p.name, "collection(lagging lossy subscriber)/") {
+			q, t = 0, 1 // two subscription pipelines, one with its merge stage: 200 000 executions at one preemption
 		}
 		h.Sched(p.name, q, t, p.body, raceOracle(p.name))
 	}
